@@ -57,15 +57,15 @@ fn parse_panic(msg: &str) -> Clause {
     }
     let low = msg.to_lowercase();
     if low.contains("deadlock") {
-        return Clause::new("deadlock", &["C17"], msg.lines().next().unwrap_or("").to_string());
+        return Clause::new("deadlock", &["C17", "C18"], msg.lines().next().unwrap_or("").to_string());
     }
     if low.contains("exceeded max_steps") || low.contains("max_steps") {
-        return Clause::new("no_progress", &["C17"], format!("step budget exhausted: {}", msg.lines().next().unwrap_or("")));
+        return Clause::new("no_progress", &["C17", "C18"], format!("step budget exhausted: {}", msg.lines().next().unwrap_or("")));
     }
     if low.contains("already borrowed") || low.contains("already mutably borrowed") {
         return Clause::new("panic", &["C16"], msg.lines().next().unwrap_or("").to_string());
     }
-    Clause::new("panic_in_execution", &["C16", "C17"], msg.lines().next().unwrap_or("").to_string())
+    Clause::new("panic_in_execution", &["C16", "C17", "C18"], msg.lines().next().unwrap_or("").to_string())
 }
 
 fn panic_text(e: Box<dyn std::any::Any + Send>) -> String {
